@@ -53,6 +53,7 @@ def run(ctx, model):
         ctx.notes.append("driver-level sequence monitor not built yet: only the counter is checked against the implementation")
     run_logix_histories(ctx, model)
     run_redundant_open(ctx, model)
+    run_fragment_wrap(ctx, model)
     outs = model.batch(lines)
     for (stream, k, want), out in zip(pend, outs):
         if out != want:
@@ -95,6 +96,79 @@ def run_redundant_open(ctx, model):
                 d.close()
             except Exception:  # noqa
                 pass
+
+
+def run_fragment_wrap(ctx, model):
+    """A call that builds two packets, the first a fragmented read whose transfer takes exactly 65535·k + 1 rounds (a
+    controller may answer "more to come" with as little data as it likes; here the continuation is stalled).  Every
+    round draws a fresh count, the second packet carries the count it drew when it was BUILT, before the loop: the last
+    round and the second packet then carry the same count.  The rounds between the first reply and the last stalled one
+    are answered locally from the first stalled reply (only the echoed count differs) to keep the run short."""
+    import struct
+    from props.c04 import sized_project
+    from props import logix as lx
+    rng = ctx.rng
+    for total in ([65536] if ctx.tier == "quick" else [65536, 65535, 65537, 2 * 65535 + 1]):
+        p = sized_project(rng, [(1200, "big"), (1200, "big2")], reads=[])
+        sess = lx.Session(model, p, conn_large=False)
+        if sess.open_error is not None:
+            sess.close()
+            continue
+        # frames of the healthy transfer of the first tag
+        n0 = len(sess.sock.frames)
+        sess.d.read("big{1200}")
+        healthy = len([f for f in sess.sock.frames[n0:] if f[:2] == b"\x70\x00" and len(f) >= 48 and f[46] == 0x52])
+        rounds = total - healthy + 1        # stalled replies + the first (real, but emptied) one
+        st = {"n": 0, "template": None}
+
+        def stalled(reply):
+            tl = 4 if reply[50:52] == b"\xa0\x02" else 2
+            out = bytearray(reply[:50 + tl])
+            out[48] = 6
+            struct.pack_into("<H", out, 2, len(out) - 24)
+            struct.pack_into("<H", out, 42, len(out) - 44)
+            return bytes(out)
+
+        def flt(reply, st=st):
+            if st["template"] is None and len(reply) > 50 and reply[:2] == b"\x70\x00" and reply[46] == 0xD2 and reply[48] in (0, 6):
+                st["template"] = stalled(reply)
+                st["n"] += 1
+                return st["template"]
+            return reply
+
+        def answer(msg, st=st, rounds=rounds):
+            # continuation requests of the stalled transfer (same offset 0): answered from the template
+            if st["template"] is not None and st["n"] < rounds - 1 and len(msg) > 47 and msg[:2] == b"\x70\x00" and msg[46] == 0x52:
+                st["n"] += 1
+                out = bytearray(st["template"])
+                out[44:46] = msg[44:46]
+                return bytes(out)
+            return None
+        sess.sock.reply_filter = flt
+        sess.sock.answer = answer
+        n0 = len(sess.sock.frames)
+        try:
+            core.with_budget(300, sess.d.read, "big{1200}", "big2{1200}")
+        except BaseException as e:  # noqa
+            if isinstance(e, (KeyboardInterrupt, SystemExit)):
+                raise
+        frames = [f for f in sess.sock.frames[n0:] if f[:2] == b"\x70\x00" and len(f) >= 48]
+        seqs = [struct.unpack_from("<H", f, 44)[0] for f in frames]
+        ctx.case("fragment-wrap", ("fragwrap", total))
+        ctx.count("fragment-wrap/first-transfer=%d/frames=%d" % (total, len(seqs)))
+        case = {"call": "read('big{1200}', 'big2{1200}')", "frames_of_first_transfer": total, "of_which_stalled": rounds - 1, "connection_size": 500}
+        for j in range(1, len(seqs)):
+            if seqs[j] == seqs[j - 1]:
+                # the boundary between the last round of the first transfer and the first frame of the second packet
+                first_of_second = st["n"] >= rounds - 1 and j == total and total % 65535 == 1
+                sig = "sequence-count-repeated:packet-built-before-a-transfer-of-65535k-rounds" if first_of_second else "sequence-count-repeated"
+                ctx.violation(sig, dict(case, frame_index=j),
+                              "count %d on two consecutive connected messages (frames %d and %d of the call, services %#x, %#x)"
+                              % (seqs[j], j - 1, j, frames[j - 1][46], frames[j][46]))
+                break
+        sess.sock.answer = None
+        sess.sock.reply_filter = None
+        sess.close()
 
 
 def run_logix_histories(ctx, model):
